@@ -480,6 +480,10 @@ def handle (line : String) : String :=
       match splitBar rest with
       | [ms, rd, wr] => pure (serialMultiCase false (← ms.mapM parseMsg) (← parseREvents rd) (← parseWEvents wr))
       | _ => none
+  | "serialmts" :: _wms :: _rms :: rest => orBad do
+      match splitBar rest with
+      | [ms, rd, wr] => pure (serialMultiCase true (← ms.mapM parseMsg) (← parseREvents rd) (← parseWEvents wr))
+      | _ => none
   | "serialmt" :: rest => orBad do
       match splitBar rest with
       | [ms, rd, wr] => pure (serialMultiCase true (← ms.mapM parseMsg) (← parseREvents rd) (← parseWEvents wr))
